@@ -455,8 +455,39 @@ static void isinv_block(uint64_t idx, void *ctx)
     ST_ADD(pred_true, ntrue); ST_ADD(pred_false, n - ntrue);
 }
 
+/* ---------------------------------------------------------------- init_identity / init_scale / init_rotate / init_translate
+ * The building blocks of scale / rotate / translate, public in their own right: the matrix they write is fully determined. */
+static void init_block(uint64_t idx, void *ctx)
+{
+    (void)ctx;
+    int32_t a = A21[idx % 21], junk = (int32_t)(0x5a5a0000u ^ (uint32_t)idx);
+    uint64_t n = 0;
+    c11_blk_begin();
+    for (int ib = 0; ib < 21; ib++) {
+        int32_t b = A21[ib];
+        for (int op = 0; op < 4; op++) {
+            pixman_transform_t t; int64_t w[3][3] = { { 0x10000, 0, 0 }, { 0, 0x10000, 0 }, { 0, 0, 0x10000 } };
+            for (int i = 0; i < 3; i++) for (int j = 0; j < 3; j++) t.matrix[i][j] = junk + i * 3 + j;
+            switch (op) {
+            case 0: pixman_transform_init_identity(&t); break;
+            case 1: pixman_transform_init_scale(&t, a, b); w[0][0] = a; w[1][1] = b; break;
+            case 2: pixman_transform_init_rotate(&t, a, b); w[0][0] = a; w[0][1] = -(int64_t)b; w[1][0] = b; w[1][1] = a; break;
+            default: pixman_transform_init_translate(&t, a, b); w[0][2] = a; w[1][2] = b; break;
+            }
+            n++;
+            static const char *nm[4] = { "init_identity", "init_scale", "init_rotate", "init_translate" };
+            for (int i = 0; i < 3; i++) for (int j = 0; j < 3; j++)
+                if (t.matrix[i][j] != w[i][j] && !(op == 2 && b == FX_MIN && i == 0 && j == 1))        /* -INT32_MIN is not representable: that entry is not judged */
+                    c11_fail("c11-init-wrong", "pixman_transform_%s(%d, %d): entry [%d][%d] = %d, expected %lld", nm[op], a, b, i, j, t.matrix[i][j], (long long)w[i][j]);
+        }
+    }
+    vf_count_libcalls(n); vf_count_eval(n); vf_count_nontrivial(n);
+    c11_blk_end();
+}
+
 static void c11_run_ops(int th)
 {
+    vf_space_run("init-identity-scale-rotate-translate", 21, init_block, NULL);
     static srt_ctx sc; sc.nm = th ? 5 : 3;
     uint64_t nm = 1; for (int i = 0; i < 5; i++) nm *= sc.nm;
     vf_space_run("scale-rotate-translate", nm * 5 * 9, srt_block, &sc);
